@@ -3,6 +3,13 @@
 import json, glob, os
 
 STRENGTHENED = {
+ 'C16f-import-records-snapshot-before-finalize': 'importer stage: on one listed host (never the one that holds the export) the import tool first runs with the power cut right before or right after it rewrites the log store (sites in the log store wrapper the tool opens through the host\'s factory; the tool runs to its end on a disk that no longer persists anything); after the reboot the real start-up cleanup and the directory oracle of C16 are applied (a recorded snapshot must exist, complete and loadable), then the import is repeated as an operator would; 67 such power losses per quick run',
+ 'C02f-tan-index-load-partial-overwrite-untrimmed': 'E1: half of the cases that keep the raft state in a real log store use Tan (closed and reopened at every restart, compared with what was saved, and the replica runs on what the store returns): conflict overwrites in the middle of a multi-entry record followed by restarts under a raft core that then uses the stale entries',
+ 'C08f-stream-refusal-reported-for-self': 'directed two-lagging-streams scenario (replay and progress stages): on-disk shard of 5 voters, two followers lag beyond the compacted log together and are reconnected together, SaveSnapshot dwells 0.4-1.2 s so that the second stream request is refused; verdict in ticks of each follower\'s own clock',
+ 'C17f-broken-snapshot-transfer-not-reported': 'restart-during-send / -receive scenarios end with a verdict in ticks instead of an inconclusive wall-clock wait; new cut-during-transfer mode (the link of the receiving host is cut while the rest of the image is on its way); PreVote, so that the follower that comes back does not depose the leader (a new leader starts with fresh remotes, which hid the missing status); 8 such cases in the quick tier of the progress stage',
+ 'C13f-plain-iterate-reuses-decode-target': '- (every codec of C13 still round-trips when it decodes into a fresh value; the mistake is the log store\'s range read, which is C09\'s matter and is caught by C09 in every run)',
+ 'C03f-single-node-quorum-counts-regular-members-only': '(= C18e found again)',
+ 'C06f-pending-readindex-keeps-queue-buffer': '(the idea of C01c / C12 at another site; caught through the clients that release without taking the result, added for C06e)',
  'C02e-batch-apply-decided-by-last-entry': '- (the divergence needs two replicas that group the same committed entries into apply tasks differently, with registered and NoOP sessions mixed on a concurrent state machine; the session model of C05 (rsmcheck/sessions, PRNG task boundaries on a concurrent state machine) sees the cause in every run)',
  'C03e-applied-index-published-before-config-change': 'E1: in a third of the C03 / C07 cases a quarter of the applied membership changes run one step-worker iteration (with 0-19 piled-up ticks) after the state machine side and before node.ApplyConfigChange hands the change to the raft core - the two workers only meet at raftMu; a campaign launched in such a step is a violation (17017 such steps per quick run, every one skipped its campaign on the unchanged tree)',
  'C06e-pooled-requeststate-keeps-unconsumed-result': 'requests stage (C12): 3 clients that issue Propose / ReadIndex, do not look at the result channel and Release after 0-12 ms (an object released with an unconsumed result goes back to the pool); readstorm stage (C06): 2 such clients on the slow follower',
